@@ -11,6 +11,7 @@ import FimVerif.Proofs.Lemmas.C08Ops
 import FimVerif.Proofs.Lemmas.C08Names
 import FimVerif.Proofs.Lemmas.C08Plan
 import FimVerif.Proofs.Lemmas.C08Rename
+import FimVerif.Generated.RemovalProbe
 /-!
 # C08 — removal and disconnection delete exactly the owned structure and nothing else
 
@@ -742,5 +743,70 @@ theorem findByName_rename_ne (g : G) (d : Dir) (x new : Nat) (c : Cls) (nm y : N
 
 example : findChild ⟨[⟨1, .node, 0, ""⟩, ⟨2, .comp, 0, ""⟩, ⟨3, .comp, 0, ""⟩], [⟨1, 2, .has, ""⟩, ⟨1, 3, .has, ""⟩]⟩
     ((Dir.mk [(1, 0), (2, 7), (3, 8)] []).rename 2 9 |>.rename 3 7) 1 .has .comp 7 = .ok 3 := by rfl
+
+/-! ### Round 7: what survives keeps every property
+
+`props` stands for every property of an element other than the class and the `Type` the removal code looks at (the Site
+of a service, labels, capacities, ...).  The implementation side of the correspondence compares the complete property
+dictionaries of all survivors before and after the call (`frame`), the model answers `frame = true`: the two theorems
+below say why - for every operation, every graph, every payload, and after any sequence of calls. -/
+
+/-- **A survivor is literally the element it was**: class, kind and the whole property payload (the Site of a service whose
+last interface has just been disconnected, for one). -/
+theorem survivor_unchanged (op : Op) (g g' : G) (h : op.run g = .ok g') (x : Nat) (hx : g'.has x = true) :
+    g'.find x = g.find x := by
+  obtain ⟨D, hn, _⟩ := remove_frame op g g' h
+  have hD : D.contains x = false := by
+    unfold G.has G.find at hx
+    rw [hn] at hx
+    obtain ⟨n, hfind⟩ := Option.isSome_iff_exists.mp hx
+    have hmem := List.mem_of_find?_eq_some hfind
+    have hq := List.find?_some hfind
+    have hid : n.id = x := by simpa using hq
+    have hp := (List.mem_filter.mp hmem).2
+    rw [hid] at hp
+    simpa using hp
+  unfold G.find
+  rw [hn, List.find?_filter]
+  congr 1
+  funext a
+  by_cases ha : a.id = x
+  · subst ha
+    have hD' : ¬ a.id ∈ D := by simpa using hD
+    simp [hD']
+  · simp [ha]
+
+/-- ... and the same after any sequence of removal / disconnect / un-peer calls (connect .. disconnect .. disconnect). -/
+theorem survivor_unchanged_seq (ops : List Op) (g g' : G) (h : ops.foldlM (fun g op => op.run g) g = .ok g')
+    (x : Nat) (hx : g'.has x = true) : g'.find x = g.find x := by
+  induction ops generalizing g with
+  | nil => simp [List.foldlM] at h; cases h; rfl
+  | cons op rest ih =>
+    rw [List.foldlM_cons] at h
+    cases h1 : op.run g with
+    | error e => rw [h1] at h; cases h
+    | ok g1 =>
+      rw [h1] at h
+      have e1 := ih g1 h
+      have hx1 : g1.has x = true := by unfold G.has at hx ⊢; rw [← e1]; exact hx
+      rw [e1]; exact survivor_unchanged op g g1 h1 x hx1
+
+example : Op.run (.gRemoveLink 2) ⟨[⟨1, .ns, 0, "Site=RENC"⟩, ⟨2, .link, 0, ""⟩], [⟨1, 2, .connects, ""⟩]⟩ = .ok ⟨[⟨1, .ns, 0, "Site=RENC"⟩], []⟩ := by rfl
+
+/-- The removal model never looks at the *model* of a component (a component is a class, its services and their ports);
+the catalog probe (`gen/removalplan.py: probe_catalog`, regenerated on every run) pins that the code does not either: for every
+model of the catalog - the rare one with ports of its own, an FPGA, included - `Node.remove_component`, `Node.remove_storage`
+and `Topology.remove_node` leave nothing of the peering created for the component's interfaces behind; and the table is not
+vacuous (some model has ports and had them connected). -/
+theorem catalog_removal_clean :
+    Gen.RemovalProbe.catalogRemoval.all (fun r => r.2.2.2.2) = true ∧
+    Gen.RemovalProbe.catalogRemoval.any (fun r => decide (r.2.2.1 > 0) && decide (r.2.2.2.1 > r.2.2.1)) = true := by decide
+
+/-- `survivor_unchanged` says the model never touches a property of a survivor; the service probe (regenerated on every run) pins
+that the code does not either where it is most tempted to: a service of ANY ServiceType - single-site or not - that carries a
+Site, given by the user or written by `validate()`, keeps its whole property dictionary when its last interface is
+disconnected or removed with its owner. -/
+theorem service_properties_kept :
+    Gen.RemovalProbe.serviceKept.all (fun r => r.2.2.2) = true ∧ Gen.RemovalProbe.serviceKept.length > 0 := by decide
 
 end FimVerif.C08
